@@ -50,7 +50,10 @@ func loadDefaultErrPage() string {
 	return defaultErrPageSrc
 }
 
-var failingStmts = []string{"{{ 1 / z0 }}", "{{ undefinedAtFailurePoint }}", `{{ 7 + "seven" }}`}
+// names for the custom error page, including ones whose last characters also occur in the extension
+var errPageNames = []string{"errors/500", "errors/default", "about", "fail", "errors/html", "oops.page"}
+
+var failingStmts = []string{"{{ 1 / z0 }}", "{{ undefinedAtFailurePoint }}", `{{ 7 + "seven" }}`, `{{ 7 % "x" }}`}
 
 type c17Cell struct {
 	Page   string `json:"page"`
@@ -95,8 +98,8 @@ func buildC17(t *Tree, cell c17Cell) *Scenario {
 	cfg.ErrPage = ""
 	switch cell.Custom {
 	case "valid":
-		cfg.ErrPage = "errors/500"
-		sc.Files = append(sc.Files, File{Path: t.path("errors/500"), Data: "{{ n1 = \"now a string\" }}{{ s0 = 5 }}{{ status = \"unavailable\" }}<h1>CUSTOM_ERROR_PAGE</h1><p>{{ 40 + 2 }} {{ status }}</p>", Role: "errorpage"})
+		cfg.ErrPage = errPageNames[(cell.FP+8)%len(errPageNames)]
+		sc.Files = append(sc.Files, File{Path: t.path(cfg.ErrPage), Data: "<style>.w{width: 100%; margin: 5%d}</style>" + "{{ n1 = \"now a string\" }}{{ s0 = 5 }}{{ status = \"unavailable\" }}<h1>CUSTOM_ERROR_PAGE</h1><p>{{ 40 + 2 }} {{ status }}</p>", Role: "errorpage"})
 	case "failing":
 		cfg.ErrPage = "errors/500"
 		sc.Files = append(sc.Files, File{Path: t.path("errors/500"), Data: "<h1>CUSTOM_ERROR_PAGE</h1>{{ undefinedInErrorPage }}", Role: "errorpage"})
@@ -363,6 +366,61 @@ func (p c17) Run(seed uint64, run int, tier string, acc *Acc) *Violation {
 						} else {
 							acc.Viol = append(acc.Viol, v)
 						}
+					}
+				}
+			}
+		}
+	}
+	// size thresholds: the same page padded so that its rendering is EXACTLY 4096 / 8192 bytes
+	for _, debug := range []bool{false, true} {
+		cell := c17Cell{Page: page, FP: -1, Debug: debug, Custom: "valid"}
+		probe := buildC17(t, cell)
+		pw, ok := setupWorld(probe)
+		if !ok {
+			break
+		}
+		o := pw.RunOp(probe.Ops[0], Budget)
+		if o.Kind != "ok" {
+			break
+		}
+		for _, target := range []int{4096, 8192} {
+			pad := target - len(o.Out)%4096
+			if target == 8192 {
+				pad += 4096
+			}
+			sc := buildC17(t, cell)
+			sc.Seed, sc.Run = seed, run
+			sc.Family = "exact-size"
+			fi := -1
+			for i, f := range sc.Files {
+				if f.Path == t.path(page) {
+					fi = i
+				}
+			}
+			if fi < 0 {
+				break
+			}
+			padding := strings.Repeat("p", pad)
+			src := sc.Files[fi].Data
+			if strings.Contains(src, "@insert(\"content\")") {
+				src = strings.Replace(src, "@insert(\"content\")", "@insert(\"content\")"+padding, 1)
+			} else {
+				src = padding + src
+			}
+			sc.Files[fi].Data = src
+			f, _, bad := checkC17(sc, acc)
+			acc.Probe("exact-size-cells", 1)
+			if !bad && f != nil {
+				sig := "exact-size " + cell.class() + " clause=" + f.what
+				if !seen[sig] {
+					seen[sig] = true
+					sc.Extra["cell"] = "exact-size " + cell.class()
+					v := &Violation{Prop: "C17", Clause: f.clause + " (page padded to an exact multiple of 4096 bytes)", Sig: sig, Scenario: sc, Expected: f.exp, Got: f.got,
+						Detail: fmt.Sprintf("page %q padded by %d bytes", page, pad)}
+					if first == nil {
+						first = v
+					} else {
+						acc.Viol = append(acc.Viol, v)
 					}
 				}
 			}
